@@ -203,6 +203,13 @@ func (c *Case) wire() string {
 	}
 	fmt.Fprintf(&sb, "run %d %d %s %s %s %s %s ", nav, modelFuel, wireStrs("A", c.Args), wireStrs("I", c.Stdin),
 		wireNamed("F", c.Files), wireNamed("C", c.Cmds), wireStrs("G", globalNames))
+	sb.WriteString(c.wireProg())
+	return sb.String()
+}
+
+// wireProg: the program part of a model request
+func (c *Case) wireProg() string {
+	var sb strings.Builder
 	sb.WriteString("B " + wireBlock(c.P.Begin))
 	fmt.Fprintf(&sb, " RULES %d", len(c.P.Rules))
 	for _, r := range c.P.Rules {
@@ -361,7 +368,10 @@ func (s Stmt) awk(ind string) string {
 	panic("stmt " + s.Op)
 }
 
-func (p *Prog) awk() string {
+func (p *Prog) awk() string { return p.awkP("") }
+
+// awkP: the program text with an AWK-only first BEGIN block (used by the reused-interpreter histories)
+func (p *Prog) awkP(prologue string) string {
 	var sb strings.Builder
 	sb.WriteString("function T(tag, vals) { print \"T,\" tag \",\" NR \",\" FNR \",\" H(FILENAME) \",\" H($0) \",\" NF \",\" (r+0) \",\" vals }\n")
 	sb.WriteString("function zz_() { return g0 g1 g2 g3 a[0] a[1] }\n")
@@ -376,6 +386,7 @@ func (p *Prog) awk() string {
 		return fmt.Sprintf("p%d_%d()", i, j)
 	}
 	var rules strings.Builder
+	rules.WriteString(prologue)
 	if len(p.Begin) > 0 {
 		fmt.Fprintf(&rules, "BEGIN {\n%s}\n", awkBlock(p.Begin, "  "))
 	}
